@@ -889,6 +889,15 @@ func runConversation(c convRun, st *convStats) string {
 	}
 	maxIdle := 2*len(c.frames) + 4
 
+	// The side-fixed wrappers (ReadClientMessage, ReadServerData, Read{Client,Server}{Text,Binary}, ...)
+	// are the same entry points with the state filled in: used for half of the plain-state cases.
+	sideAPI := !c.extended && len(wire)&1 == 1
+	nData := 0
+	for _, e := range ref.Events(c.frames) {
+		if e.Kind == "msg" {
+			nData++
+		}
+	}
 	mi := -1
 	for _, e := range ref.Events(c.frames) {
 		if e.Kind != "msg" {
@@ -972,7 +981,14 @@ func runConversation(c convRun, st *convStats) string {
 		case entryReadMessage:
 			for {
 				var msgs []wsutil.Message
-				msgs, err = wsutil.ReadMessage(src, state, nil)
+				switch {
+				case !sideAPI:
+					msgs, err = wsutil.ReadMessage(src, state, nil)
+				case c.server:
+					msgs, err = wsutil.ReadClientMessage(src, nil)
+				default:
+					msgs, err = wsutil.ReadServerMessage(src, nil)
+				}
 				if err != nil {
 					for _, m := range msgs {
 						if isData(m.OpCode) {
@@ -991,7 +1007,27 @@ func runConversation(c convRun, st *convStats) string {
 				}
 			}
 		case entryReadData:
-			data, op, err = wsutil.ReadData(tx.RW{Reader: src, Writer: rec}, state)
+			rw := tx.RW{Reader: src, Writer: rec}
+			switch {
+			case !sideAPI:
+				data, op, err = wsutil.ReadData(rw, state)
+			case nData == 1 && len(wire)%4 == 3 && c.server && text:
+				data, err = wsutil.ReadClientText(rw)
+				op = ws.OpText
+			case nData == 1 && len(wire)%4 == 3 && c.server:
+				data, err = wsutil.ReadClientBinary(rw)
+				op = ws.OpBinary
+			case nData == 1 && len(wire)%4 == 3 && text:
+				data, err = wsutil.ReadServerText(rw)
+				op = ws.OpText
+			case nData == 1 && len(wire)%4 == 3:
+				data, err = wsutil.ReadServerBinary(rw)
+				op = ws.OpBinary
+			case c.server:
+				data, op, err = wsutil.ReadClientData(rw)
+			default:
+				data, op, err = wsutil.ReadServerData(rw)
+			}
 		}
 
 		if src.Runaway {
